@@ -30,12 +30,16 @@ type c16Case struct {
 	Target   wire.Hex   `json:"target"`   // 127.x.y.z
 	Port     int        `json:"port"`
 	Payloads []wire.Hex `json:"payloads"`
+	// Flood > 0: the phase additionally carries this many small valid IPFIX messages (more than the mirror
+	// queue's 1000 slots, which fill while the phase runs); packet-per-datagram exactness is then not required,
+	// only: nothing corrupted, nothing twice, and published(mirror on) == published(mirror off)
+	Flood int `json:"flood,omitempty"`
 }
 
 const c16Rule = "case = protocol (ipfix | sflow), max-udp-size 64..65507 (biased to 1500), 1..4 workers, IPv4 exporter address in 4-octet or 16-octet form, mirror target 127.x.y.z:port, " +
 	"1..8 datagrams with lengths biased to {0, 1, size-29, size-28, size-27, size-1, size} (valid protocol messages and arbitrary octets); the real worker queues them for mirroring and the real mirror function emits them; " +
 	"oracle on the IP packets captured on lo (filtered by the run's own target address and port) = exactly one packet per datagram, version/IHL 0x45, protocol 17, source = exporter, destination = target, " +
-	"IP total length = 28+n = captured length, UDP length = 8+n, destination port = configured, payload byte-identical; the driver survives; published payloads with mirroring on == with mirroring off; " +
+	"IP total length = 28+n = captured length, UDP length = 8+n, destination port = configured, payload byte-identical; the driver survives; published payloads with mirroring on == with mirroring off, also when a flood of > 1000 datagrams overflows the mirror queue (then only: nothing corrupted, nothing twice); " +
 	"non-trivial = a payload within 28 octets of the maximum, or a 4-octet source address, or an empty payload; distinct by hash"
 
 func htons(x uint16) uint16 { return x<<8 | x>>8 }
@@ -109,6 +113,9 @@ func genC16(t *rapid.T, envs map[string]*wire.GenEnv) c16Case {
 	shard, _ := strconv.Atoi(os.Getenv("VERIF_SHARD_INDEX"))
 	c.Target = []byte{127, byte(1 + shard%200), byte(rapid.IntRange(0, 255).Draw(t, "t2")), byte(rapid.IntRange(2, 254).Draw(t, "t3"))}
 	c.Port = rapid.IntRange(1024, 65535).Draw(t, "port")
+	if c.Proto == "ipfix" && c.UDPSize >= 200 && rapid.IntRange(0, 15).Draw(t, "flood") == 0 {
+		c.Flood = rapid.IntRange(1050, 1400).Draw(t, "floodn")
+	}
 	n := rapid.IntRange(1, 8).Draw(t, "npayloads")
 	for i := 0; i < n; i++ {
 		size := c.UDPSize
@@ -137,8 +144,16 @@ func genC16(t *rapid.T, envs map[string]*wire.GenEnv) c16Case {
 		default:
 			// a valid message of the protocol (so that something is decoded and published)
 			if c.Proto == "ipfix" {
-				sc := envs["ipfix"].GenScenario(t, 2, 3)
-				b = sc.Main.Bytes()
+				// self-contained (template and data in one message) with a template id of its own: what is
+				// published must not depend on the order in which several workers process the phase
+				tp := envs["ipfix"].GenTemplate(t, uint16(2000+i))
+				ds := envs["ipfix"].GenDataSet(t, &tp, 3)
+				kind := "tpl"
+				if tp.Options {
+					kind = "opt"
+				}
+				m := wire.Msg{Proto: "ipfix", Seq: uint32(100 + i), Time: 1700000000, Sets: []wire.Set{{Kind: kind, Tpls: []wire.Template{tp}}, ds}}
+				b = m.Bytes()
 			} else {
 				d := wire.GenSFDatagram(t)
 				b = d.Bytes()
@@ -146,6 +161,9 @@ func genC16(t *rapid.T, envs map[string]*wire.GenEnv) c16Case {
 			if len(b) > size {
 				b = b[:size]
 			}
+		}
+		if kind <= 7 && c.Proto == "ipfix" && len(b) >= 2 && b[0] == 0 && b[1] == 10 {
+			b[1] = 11 // arbitrary octets must not happen to be an IPFIX message that installs templates
 		}
 		c.Payloads = append(c.Payloads, b)
 	}
@@ -180,7 +198,7 @@ func runC16(c *c16Case) (v verdict, sig string, err error) {
 	v.label(len(c.Exporter) == 4, "4-octet-source")
 	v.label(empty, "empty-payload")
 	v.label(c.UDPSize > 9000, "udpsize>9000")
-	v.NT = near || len(c.Exporter) == 4 || empty
+	v.NT = near || len(c.Exporter) == 4 || empty || c.Flood > 0
 
 	cap, e := openCapture()
 	if e != nil {
@@ -188,9 +206,25 @@ func runC16(c *c16Case) (v verdict, sig string, err error) {
 	}
 	defer cap.close()
 
-	phase := make([]drvDatagram, 0, len(c.Payloads))
-	for i, p := range c.Payloads {
-		phase = append(phase, drvDatagram{Addr: hex.EncodeToString(c.Exporter), Port: 3000 + i, Data: hex.EncodeToString(p)})
+	payloads := append([]wire.Hex{}, c.Payloads...)
+	if c.Flood > 0 {
+		// Flood template-only messages fill the mirror queue (1000 slots) without publishing anything, so the
+		// outgoing message queue stays far from full; 60 self-contained data messages follow
+		tp := wire.Template{ID: 60000, Fields: []wire.Field{{ID: 8, Len: 4, Type: wire.TIPv4}, {ID: 1, Len: 8, Type: wire.TUint64}}}
+		for i := 0; i < c.Flood; i++ {
+			m := wire.Msg{Proto: "ipfix", Seq: uint32(70000 + i), Time: 1700000000, Domain: 1, Sets: []wire.Set{{Kind: "tpl", Tpls: []wire.Template{tp}}}}
+			payloads = append(payloads, m.Bytes())
+		}
+		for i := 0; i < 60; i++ {
+			m := wire.Msg{Proto: "ipfix", Seq: uint32(90000 + i), Time: 1700000000, Domain: 1, Sets: []wire.Set{{Kind: "tpl", Tpls: []wire.Template{tp}},
+				{Kind: "data", Tpl: &tp, Recs: []wire.Record{{Vals: []wire.Hex{{10, 9, byte(i >> 8), byte(i)}, {0, 0, 0, 0, 0, 1, byte(i >> 8), byte(i)}}}}}}}
+			payloads = append(payloads, m.Bytes())
+		}
+	}
+	v.label(c.Flood > 0, "mirror-queue-overflow")
+	phase := make([]drvDatagram, 0, len(payloads))
+	for i, p := range payloads {
+		phase = append(phase, drvDatagram{Addr: hex.EncodeToString(c.Exporter), Port: 3000 + i%1000, Data: hex.EncodeToString(p)})
 	}
 	target := net.IP(c.Target).String()
 	on := drvRequest{Op: "pipeline", Proto: c.Proto, Workers: c.Workers, UDPSize: c.UDPSize, ResetCache: true,
@@ -218,10 +252,10 @@ func runC16(c *c16Case) (v verdict, sig string, err error) {
 	if respOn.Mirror != "" {
 		return v, "mirror-error", fmt.Errorf("the mirror function stopped: %s", respOn.Mirror)
 	}
-	if respOn.Phases[0].Mirrored != len(c.Payloads) {
-		return v, "not-queued", fmt.Errorf("%d of %d datagrams were queued for mirroring", respOn.Phases[0].Mirrored, len(c.Payloads))
+	if c.Flood == 0 && respOn.Phases[0].Mirrored != len(payloads) {
+		return v, "not-queued", fmt.Errorf("%d of %d datagrams were queued for mirroring", respOn.Phases[0].Mirrored, len(payloads))
 	}
-	pkts := cap.collect(c.Target, c.Port, len(c.Payloads), 3*time.Second)
+	pkts := cap.collect(c.Target, c.Port, respOn.Phases[0].Mirrored, 3*time.Second)
 
 	// mirroring never changes what is published
 	a := append([]string{}, respOn.Phases[0].Published...)
@@ -244,7 +278,7 @@ func runC16(c *c16Case) (v verdict, sig string, err error) {
 
 	// packets
 	want := map[string]int{}
-	for _, p := range c.Payloads {
+	for _, p := range payloads {
 		want[string(p)]++
 	}
 	for i, p := range pkts {
@@ -270,6 +304,13 @@ func runC16(c *c16Case) (v verdict, sig string, err error) {
 	missing := 0
 	for _, n := range want {
 		missing += n
+	}
+	if c.Flood > 0 {
+		// the mirror queue overflowed by construction: only what was queued can be re-emitted
+		if len(pkts) != respOn.Phases[0].Mirrored {
+			return v, "missing", fmt.Errorf("%d datagrams were queued for mirroring, %d packets were emitted", respOn.Phases[0].Mirrored, len(pkts))
+		}
+		return v, "", nil
 	}
 	if missing > 0 {
 		return v, "missing", fmt.Errorf("%d of %d datagrams were not re-emitted towards %s:%d (payload lengths %v)", missing, len(c.Payloads), target, c.Port, lens(c.Payloads))
